@@ -50,6 +50,12 @@ func spec_render(s Snippet, ctx context.Context) string {
 //@   requires a != nil
 //@   lit 1 ensures !stopped ==> len(out) == 1 && len(out2) == 1 && out[0] == a.name && out2[0] == a.snippet
 
+//@ func Block.IsNil
+//@   props C09 C01
+//@   pure
+//@   ensures result == (len(v) == 0)
+//@   note only the EMPTY block renders nothing: a block of white space (a line break the generator rendered on purpose) is text like any other
+
 //@ func Block.Frag
 //@   props C09
 //@   lit 1 yields string(v)
